@@ -34,6 +34,8 @@ fn kinds() -> Vec<(&'static str, XVal, Option<XFormula>, Option<u32>, Data)> {
         ("inline string", XVal::InlineStr(XText::plain("inl")), None, None, Data::String("inl".into())),
         ("inline rich string", XVal::InlineStr(XText { runs: vec![XRun::R("a".into()), XRun::R("b".into())], enc: TextEnc::Entities }), None, None, Data::String("ab".into())),
         ("formula string", XVal::Str("res".into(), TextEnc::Entities), Some(XFormula::Plain("\"r\"&\"es\"".into())), None, Data::String("res".into())),
+        // a formula whose cached string result is empty (=IF(..,"",..)): <v></v> is present, the value is the empty string
+        ("formula string, empty result", XVal::Str(String::new(), TextEnc::Entities), Some(XFormula::Plain("IF(1,\"\",1)".into())), None, Data::String(String::new())),
         ("bool true", XVal::Bool(true), None, None, Data::Bool(true)),
         ("bool false", XVal::Bool(false), None, None, Data::Bool(false)),
         ("iso date", XVal::IsoDate("2021-03-04T05:06:07".into()), None, None, Data::DateTimeIso("2021-03-04T05:06:07".into())),
